@@ -164,6 +164,10 @@ def direct_case(case, counters, viol, nontrivial):
             ll2 = np.where(g.random(n) < 0.4, ll + g.normal(0, 3, n).astype(dt), ll).astype(dt)
             if g.random() < 0.5 and n > 3 and b1 > b0:
                 ll2 = np.where(np.arange(n) % 2 == 1, -np.inf, ll2).astype(dt)
+            if not np.isfinite(ll2).any():
+                # a population without any weight has nothing to resample from (the library refuses it): keep one live member
+                ll2 = ll2.copy()
+                ll2[int(g.integers(n))] = 0.0
             src.log_likelihood = xp.asarray(ll2)
             where += " [field reassigned after look-ahead]"
             counters["reassigned_before_resample"] += 1
@@ -205,8 +209,18 @@ def freq_case(case, counters, viol, nontrivial):
     big = exp >= 5
     obs = np.append(counts[big], counts[~big].sum())
     ex = np.append(exp[big], exp[~big].sum())
+    if ex[-1] < 5 and len(ex) >= 2:
+        # the pooled remainder itself is too small for the chi-square approximation: fold it into the smallest regular bin
+        k = int(np.argmin(ex[:-1]))
+        obs[k] += obs[-1]
+        ex[k] += ex[-1]
+        obs, ex = obs[:-1], ex[:-1]
     keep = ex > 0
     obs, ex = obs[keep], ex[keep]
+    if len(ex) < 2:
+        counters["freq_tests_with_a_single_bin_not_judged"] += 1
+        nontrivial.add(f"freq|{n}|{case['xp']}")
+        return {"chi2": 0.0, "dof": 0, "p": 1.0}
     chi2 = float(np.sum((obs - ex) ** 2 / ex))
     dof = max(1, len(ex) - 1)
     from scipy import stats
